@@ -76,7 +76,7 @@ def nontrivial(case, truth, res, mask, n):
         if b.get("raise") in ("KeyboardInterrupt", "SystemExit", "GeneratorExit", "ProgBaseError"):
             return True
         posts = [d for d in f.get("decos", []) if d["t"] == "ensure"]
-        if len(posts) >= 2 and any(not S.is_truthy((truth.get(d["cid"]) or ["T"])[0]) for d in posts):
+        if len(posts) >= 2 and any(any(not S.is_truthy(code_) for code_ in (truth.get(d["cid"]) or ["T"])) for d in posts):
             return True
     return False
 
